@@ -176,6 +176,9 @@ _BASE = {
 }
 
 
+BV_TYPES = {"tsk_flags_t"}       # C types modelled as bit-vectors (a contract may add e.g. uint64_t for bit sets)
+
+
 def _anon_name(s):
     m = re.search(r"\((?:unnamed|anonymous)[^)]*? at ([^)]*?)\)", s)
     if not m:
@@ -216,7 +219,7 @@ def parse_type(s):
     base = s2
     if base in _BASE:
         b, sg = _BASE[base]
-        t = CType("int", b, sg, name="flags" if base == "tsk_flags_t" else None)
+        t = CType("int", b, sg, name="flags" if base in BV_TYPES else None)
     elif base in ("bool", "_Bool"):
         t = T_BOOL
     elif base in ("double", "float", "long double"):
